@@ -138,7 +138,9 @@ fn fx_caps(c: &Captures<'_>) -> String {
 
 pub fn run_c04(cfg: &Cfg) {
     let mut s = Session::new(&cfg.out);
-    let pats = common_patterns(cfg);
+    let mut pats = common_patterns(cfg);
+    // witnesses of known findings: replayed on their own text only
+    pats.push("((?i)a)b".to_string());
     let mut txts = texts("c01", "quick");
     txts.retain(|t| t.chars().count() <= 4 || !t.chars().all(|c| c == 'a' || c == 'b'));
     for t in ["ab cd", "a1 b2", "Ab", "aB", "É", "éÉ", " a ", "a_b", "1a", "ab\ncd", "अ", "aअ", "अ ก", "ก", "ÿ a", "日a"] {
@@ -173,6 +175,8 @@ pub fn run_c04(cfg: &Cfg) {
         };
         s.count("patterns");
         let known_f1 = p == r"(?:|a)*\b";
+        // F19: inline flags leak out of capturing groups (`((?i)a)b` also matches `aB`); outside the explored syntax
+        let known_f19 = p == "((?i)a)b";
         // (a regex-crate pattern whose group sits under a zero-times repeat loses that group there)
         let zero_rep = p.contains("{0}") || p.contains("{0,0}");
         if !zero_rep && fx.captures_len() != rx.captures_len() {
@@ -183,8 +187,8 @@ pub fn run_c04(cfg: &Cfg) {
         if !zero_rep && fnames != rnames {
             s.violation("C04", "capture_names", &[("pattern", p.clone()), ("detail", format!("{:?} vs {:?}", fnames, rnames))]);
         }
-        let witness_texts = vec!["a".to_string()];
-        for t in (if known_f1 { &witness_texts } else { &txts }) {
+        let witness_texts = vec![if known_f19 { "aB".to_string() } else { "a".to_string() }];
+        for t in (if known_f1 || known_f19 { &witness_texts } else { &txts }) {
             s.count("texts");
             let r = catch_unwind(AssertUnwindSafe(|| {
                 let mut diffs: Vec<(String, String, String)> = Vec::new();
@@ -255,6 +259,9 @@ pub fn run_c04(cfg: &Cfg) {
             }
             // ties: fancy-regex <-> model and regex crate <-> model (isolated check of A-RA)
             for pos in [0usize] {
+                if known_f19 {
+                    continue; // the model is fed fancy-regex's own parse tree, the regex crate parses differently here
+                }
                 let _ = s.caps(&b, t, pos, false, 1_000_000);
                 let ra = rx.captures(t).map(|c| rx_caps(&c)).unwrap_or("none".into());
                 s.line(&format!("capsR\t{}\t{}\t0\t1000000", hex(t), pos), &format!("{}\t0,0,0", ra));
